@@ -2,12 +2,14 @@ package main
 
 import (
 	"bytes"
+	"errors"
 	"fmt"
 	"net/http"
 	"net/url"
 	"sort"
 	"strings"
 	"sync"
+	"sync/atomic"
 	"testing"
 
 	"github.com/fabiolb/fabio/config"
@@ -26,6 +28,7 @@ type fakeBackend struct {
 	svc, man, html chan string
 	mu             sync.Mutex
 	registered     [][]string
+	failRegister   int32 // > 0: Register returns an error (fault injection)
 }
 
 func newFakeBackend() *fakeBackend {
@@ -35,6 +38,9 @@ func (f *fakeBackend) Register(s []string) error {
 	f.mu.Lock()
 	f.registered = append(f.registered, append([]string{}, s...))
 	f.mu.Unlock()
+	if atomic.LoadInt32(&f.failRegister) > 0 {
+		return errors.New("injected: alias registration failed")
+	}
 	return nil
 }
 func (f *fakeBackend) DeregisterAll() error                             { return nil }
@@ -174,12 +180,20 @@ func TestC02bUpdateHistory(t *testing.T) {
 			// harness-side validity model of the combined text
 			candidate := svcText + "\n" + manText
 			valid = textValid(candidate)
+			// the registration of the route aliases with the registry (a side effect of an
+			// update) fails now and then; the table must follow the configuration all the same
+			regFails := rapid.IntRange(0, 3).Draw(t, "register-fails") == 0
+			if regFails {
+				atomic.StoreInt32(&be.failRegister, 1)
+				hx.Class("update-while-alias-registration-fails")
+			}
 			if side == "svc" {
 				send(be.svc, svcText)
 			} else {
 				send(be.man, manText)
 			}
 			barrier()
+			atomic.StoreInt32(&be.failRegister, 0)
 			hx.Eval()
 			hist = append(hist, fmt.Sprintf("%s valid=%v: %q", side, valid, hx.Trunc(strings.ReplaceAll(candidate, "\n", " ; "), 300)))
 			if valid {
